@@ -1,5 +1,6 @@
 mod cases;
 mod containers;
+mod dag;
 mod eval;
 mod gen_pure;
 mod gen_solver;
@@ -10,6 +11,7 @@ mod treeck;
 mod vset;
 mod pure;
 mod report;
+mod scale;
 mod util;
 
 use cases::Sink;
@@ -38,6 +40,12 @@ fn main() {
                     if prop == "C06" {
                         containers::gen_smx(&mut sink, thorough, seed);
                     }
+                    if prop == "C03" {
+                        dag::gen_dag(&mut sink, thorough);
+                    }
+                    if matches!(prop.as_str(), "C01" | "C04" | "C05") {
+                        scale::gen_scale(&mut sink, thorough);
+                    }
                     gen_solver::gen_solver::<pubgrub::Range<u32>>(&mut sink, prop, thorough, seed, debug, n);
                     // the same properties over a custom VersionSet that relies on the trait's provided methods
                     gen_solver::gen_solver::<hset::BitSet8>(&mut sink, prop, thorough, seed ^ 0xb175, debug, n / 6)
@@ -60,7 +68,7 @@ fn main() {
             let skipped = treeck::ENTAIL_SKIPPED.with(|c| c.get());
             if skipped > 0 {
                 sink.tag("entailment_checks_skipped_as_too_large", skipped);
-                sink.notes.push(format!("{} entailment checks were given up (more than 300000 selections) and count as passes", skipped));
+                sink.notes.push(format!("{} entailment checks were given up (more than 60000 selections) and count as passes", skipped));
             }
             sink.write(dir, prop).expect("write");
         }
